@@ -7,7 +7,7 @@ from hypothesis import strategies as st
 from ..core import Result
 from ..exact import Q
 from .. import cfgs, ref, refx
-from .c03 import recompute_route
+from .c03 import recompute_route, with_float_fallback
 
 LEVEL = 'exploration'
 RULE = ("Same Config product as C01/C03 (PFI has no loss_bigger_is_better), plus models that ignore a chosen feature subset. An "
@@ -22,6 +22,10 @@ ASSUMPTIONS = ["fractions.Fraction arithmetic", "the recording imputer delegates
 
 
 def run_case(cfg):
+    return with_float_fallback(_run_case, cfg, 'C02')
+
+
+def _run_case(cfg):
     h = cfgs.Harness(cfg)
     random.seed(cfg['seeds'][0])
     np.random.seed(cfg['seeds'][1])
@@ -97,6 +101,10 @@ def run_case(cfg):
               'dynamic' if cfg['dynamic'] else 'static', f'd={d}']
     if ignored:
         labels.append('has_ignored_feature')
+    if cfg.get('extra'):
+        labels.append('unexplained_extra_features')
+    if cfg['loss'].get('offset'):
+        labels.append('loss_offset')
     if cfg['imputer']['kind'] == 'default' or cfg['storage']['cls'] == 'sequence':
         labels.append('recomputed_route')
     if cmp.exactness_lost:
